@@ -896,7 +896,7 @@ def run_r(check, rnd, seqs, thorough, only=None):
         if len(descs) <= 2 and n % (3 if thorough else 5) == 0:
             plans.append((True, second, 0))
         if descs[-1]["k"] in ("D", "H", "U", "P") and n % (4 if thorough else 7) == 0:
-            plans.append((True, None, 1))                 # FIN cuts the last frame: outside the statement
+            plans.append((True, None, 1))                 # FIN cuts the last frame: every run must close the connection
         for client, sec, trunc in plans:
             if only is not None and (client, sec is not None, trunc) != only:
                 continue
@@ -1056,9 +1056,9 @@ def run(check):
     if r.violated:
         check.model_violation(r, "H3Stream")
     if thorough:
-        # the theorem must tell the design from the two departures of the shipped code it was written against
+        # the theorem must tell the design from the three departures of the code as first shipped
         probe = check.run_tlc("H3Stream", m_config("PlanProbe", shipped=True), name="H3Stream_M_probe_shipped", workers=4)
-        check.cov["M_probe"] = {"variant": "Shipped = TRUE (blocked PUSH_PROMISE resumed as HEADERS; no end of stream after a frame "
+        check.cov["M_probe"] = {"variant": "Shipped = TRUE (blocked PUSH_PROMISE resumed as HEADERS; a FIN cutting a frame is no error; no end of stream after a frame "
                                            "without end flag)", "tlc_finds_counterexample": probe.violated}
         if probe.violated != "ChunkingIndependent":
             raise MachineryError("the theorem of H3Stream no longer discriminates: the as-shipped variant passes")
@@ -1076,8 +1076,9 @@ def run(check):
     check.assumptions += [
         "header blocks are opaque to the specification: a block is available iff its Required Insert Count byte is 0 or the encoder "
         "stream has been delivered completely (the (R) library makes every dynamic block refer to the last insertion)",
-        "a stream whose FIN cuts a frame or a frame header in two (RFC 9114 7.1: connection error, not raised by aioquic) is outside the "
-        "statement: for it only headers and body bytes are compared, a differing end-of-stream report is SPEC-DRIFT",
+        "a request or push stream whose FIN cuts a frame or a frame header in two closes the connection (H3_FRAME_ERROR, RFC 9114 7.1) in "
+        "the design and in every run; on a tree that does not close, its end-of-stream reports are compared by the statement clause "
+        "independent:end-of-stream-cut-mid-frame",
         "a stream that makes the connection fail is compared by 'closed in every run'; the events handed out before the failure depend "
         "on the deliveries by construction (handle_event drops the events of the failing call) and are compared as model clauses only",
         "in (V) replays the peer's QPACK decoder stream is cut to its stream type: its acknowledgements answer what the live endpoint "
